@@ -126,7 +126,7 @@ func init() {
 		Harness: "fssim", Pkgs: "log,utils,utils/renameio,database/storage/fstree,updater", FSPkgs: "utils,utils/renameio,database/storage/fstree,updater",
 		QuickRuns: 400, ThoroughRuns: 20000, RunsPerProc: 25,
 		QuickWall: 75 * time.Second, ThoroughWall: 15 * time.Minute, Level: "fault_enumeration",
-		Rule: "one evaluation = one workload case (primitive in {renameio.WriteFile, TempFile+CloseAtomicallyReplace, renameio.Symlink, CreateAtomic, CopyFileAtomic, ReplaceFileAtomic, fstree Put, resource download through ResourceRegistry.GetFile with a scripted transport (truncated body, mid-body error, status 500, over-long body, retries), File.Unpack with UnpackGZIP, Resource.UnpackArchive of a zip} x destination state {absent, present, present with other mode} x old/new content size x temp-dir choice x 0-3 concurrent readers); per case the fault-free run is recorded and then EVERY mutating file-system call is enumerated as crash point (process killed immediately before it) and as ENOSPC/EIO error point, plus short writes (exception, probe fault-points-sampled: when a case has more than 60 mutating calls and more than 40 of them are chunk writes to the temporary file - multi-megabyte content - every call that is not a write plus the first, the last and 38 evenly spaced writes are taken); unpackzip cases additionally run two overlapping unpack calls for the same archive with readers; distinct = distinct case description; non-trivial = every case (each has at least one crash point); the number of enumerated fault points is reported as probe fault-points-enumerated",
+		Rule: "one evaluation = one workload case (primitive in {renameio.WriteFile, TempFile+CloseAtomicallyReplace, renameio.Symlink, CreateAtomic, CopyFileAtomic, ReplaceFileAtomic, fstree Put, resource download through ResourceRegistry.GetFile with a scripted transport (truncated body, mid-body error, status 500, over-long body, retries), File.Unpack with UnpackGZIP, Resource.UnpackArchive of a zip} x destination state {absent, present, present with other mode} x old/new content size x temp-dir choice x 0-3 concurrent readers); per case the fault-free run is recorded and then EVERY mutating file-system call is enumerated as crash point (process killed immediately before it) and as ENOSPC/EIO error point, plus short writes (exception, probe fault-points-sampled: when a case has more than 60 mutating calls and more than 24 of them are chunk writes to the temporary file - multi-megabyte content - every call that is not a write plus the first, the last and 22 evenly spaced writes are taken); unpackzip cases additionally run two overlapping unpack calls for the same archive with readers; distinct = distinct case description; non-trivial = every case (each has at least one crash point); the number of enumerated fault points is reported as probe fault-points-enumerated",
 		Real: []string{"utils/renameio, utils (atomic helpers), database/storage/fstree, updater fetch/unpack (instrumented, os.* redirected to the disk seam)", "the real file system below a scratch directory"},
 		Stub: []string{"disk seam sim/simfs: logs every call, injects crash points / errno / short writes, otherwise passes through to package os"},
 		Assume: []string{"a crash is modelled as 'nothing after the crash point has any effect' (deferred clean-up of the killed operation is suppressed); loss of un-fsynced data is not modelled by dropping data but checked on the call log (last write < fsync < rename)", "the download transport is a scripted http.RoundTripper installed as http.DefaultTransport; signature verification is not configured"},
@@ -289,6 +289,15 @@ func loadKnown() *knownFindings {
 		trouble("known-findings.json: %v", err)
 	}
 	return kf
+}
+
+// runTimeout is the real-time watchdog per simulated run: generous where one run enumerates hundreds of fault cases
+// over multi-megabyte files (a loaded machine must not turn a long run into "trouble").
+func runTimeout(pc *propCfg) time.Duration {
+	if pc.Harness == "fssim" {
+		return 6 * time.Minute
+	}
+	return 90 * time.Second
 }
 
 func (kf *knownFindings) match(id, class, witness string) (string, bool) {
@@ -461,7 +470,7 @@ func check(args []string) {
 					}
 					code, err := runWorker(br.Bin, []string{"-test.run", "^TestSim$", "-test.timeout", "0",
 						"-sim.mode", "batch", "-sim.prop", id, "-sim.seed", fmt.Sprint(seed), "-sim.from", fmt.Sprint(from), "-sim.to", fmt.Sprint(c.to),
-						"-sim.tier", tier, "-sim.out", out, "-sim.wall", remain.String()}, logp, remain+90*time.Second)
+						"-sim.tier", tier, "-sim.out", out, "-sim.wall", remain.String(), "-sim.runtimeout", runTimeout(pc).String()}, logp, remain+90*time.Second+runTimeout(pc))
 					var s summary
 					b, rerr := os.ReadFile(out)
 					if rerr == nil {
